@@ -36,6 +36,7 @@ CHECKS = {
         runs=[
             dict(name="dispatch", run="^TestPropDispatch$", checks=(12000, 80000), shards=(4, 16)),
             dict(name="concurrent", run="^TestPropConcurrentDispatch$", checks=(1500, 10000), shards=(4, 16)),
+            dict(name="backlog", run="^TestPropBacklogRestart$", checks=(600, 6000), shards=(1, 4)),
             dict(name="doc", run="^TestDocCodes$", shards=(1, 1)),
         ],
     ),
